@@ -9,3 +9,13 @@ if [ -f schema_model.ml ]; then
   ocamlfind ocamlopt -w -a -O2 schema_model.mli schema_model.ml schema_driver.ml -o schema_driver 2>/dev/null || \
   ocamlfind ocamlopt -w -a schema_model.mli schema_model.ml schema_driver.ml -o schema_driver
 fi
+# C16: the time / size model has its own extraction (coq/Extract/ExtractTime.v) and driver
+if [ -f time_model.ml ]; then
+  ocamlfind ocamlopt -w -a -O2 time_model.mli time_model.ml time_driver.ml -o time_driver 2>/dev/null || \
+  ocamlfind ocamlopt -w -a time_model.mli time_model.ml time_driver.ml -o time_driver
+fi
+# C10 / C11: writer + reader model of the manifest and chain files (coq/Extract/ExtractXml.v -> xml_model.ml)
+if [ -f xml_model.ml ]; then
+  ocamlfind ocamlopt -w -a -O2 xml_model.mli xml_model.ml xml_driver.ml -o xml_driver 2>/dev/null || \
+  ocamlfind ocamlopt -w -a xml_model.mli xml_model.ml xml_driver.ml -o xml_driver
+fi
